@@ -576,4 +576,56 @@ def run(tier="quick", replay=None):
         R.check(val_ok, "R06.delegate", "R06.delegate|result-is-reduction-value", asite,
                 "auto: the delegated result converted back is field 1 (the value) of the Reduction",
                 "apply_op no longer converts the Reduction's value (field 1) back as the operator's result", fn=APPLY_OP)
+    # ---------------- R06.head --------------------------------------------------------------------
+    TH = "compiler::clvm::translate_head"
+    th = with_helpers(prog, TH)
+    if th is None:
+        R.viol("R06.head", "R06.head|anchor-lost|translate_head", "compiler::clvm", "anchor lost: translate_head")
+    else:
+        tfl = Flow(th)
+        tsite = "%s:%s" % (th.file, th.line)
+        # (1) an operator atom is identified by its exact bytes: where an atom that is not an operator NAME is reduced to a
+        # number (number_from_u8), the reduction is guarded by `u8_from_number(n) != bytes => error` (0x0001 is not quote)
+        nums = [(bb, t) for bb, t in th.calls() if (callee_of(t) or "").endswith("util::number_from_u8")]
+        recs = [(bb, t) for bb, t in th.calls() if callee_of(t) == TH]
+        guarded = True
+        nred = 0
+        for nb, nt in nums:
+            feeds = [(rb, rt) for rb, rt in recs if any(nt["dest"]["l"] in tfl.back_pure([op_local(a)]) for a in rt["args"] if op_local(a) is not None)]
+            if not feeds:
+                continue
+            nred += 1
+            ok_here = False
+            for cb, ct in th.calls():
+                c = callee_of(ct) or ""
+                if not (c.endswith("::ne") or c.endswith("::eq")):
+                    continue
+                ls = [op_local(a) for a in ct["args"] if op_local(a) is not None]
+                enc = [l for l in ls if any(ft["dest"]["l"] in tfl.back_pure([l]) for fb, ft in th.calls()
+                                            if (callee_of(ft) or "").endswith("util::u8_from_number") and nt["dest"]["l"] in tfl.back_pure([op_local(ft["args"][0]) or -1]))]
+                if not enc:
+                    continue
+                tb, fb = true_target(th, cb), false_target(th, cb)
+                same_b, diff_b = (fb, tb) if c.endswith("::ne") else (tb, fb)
+                if same_b is None or diff_b is None:
+                    continue
+                if all(rb in th.reachable(same_b, avoid=[diff_b]) and rb not in th.reachable(diff_b, avoid=[same_b]) for rb, _ in feeds):
+                    ok_here = True
+            guarded = guarded and ok_here
+        R.check(nred >= 1 and guarded, "R06.head", "R06.head|operator-bytes-exact", tsite,
+                "auto: an atom head is reduced to an opcode number only if re-encoding the number gives back the atom's bytes",
+                "translate_head reduces a head atom to its numeric value without checking that the atom is that number's canonical "
+                "encoding: 0x0001 is run as quote (and 0x0002 as apply ..) while the consensus evaluator rejects it as an unknown "
+                "operator", fn=TH)
+        # (2) a pair in head position: the consensus evaluator reads ((X) args..) as "apply X to the unevaluated args"; it is
+        # never evaluated as a program of its own
+        runs = [(bb, t) for bb, t in th.calls() if callee_of(t) == "compiler::clvm::run"]
+        R.check(not runs, "R06.head", "R06.head|pair-head-evaluated-as-program", th.loc(runs[0][0]) if runs else tsite,
+                "auto: translate_head does not evaluate a pair in head position as a program",
+                "translate_head evaluates a pair in head position ((X) ..) as a program of its own to obtain the operator; the "
+                "consensus evaluator applies X to the UNEVALUATED arguments instead, so ((16) 1 2) is 3 for consensus and a failure "
+                "for the stepping evaluator", fn=TH)
+    # the delegated result comes back through convert_from_clvm_rs: it must not lose bytes (shared rule with C07)
+    import c07
+    c07.check_roundtrip_guard(prog, R, "R06.delegate", "R06.delegate|result-conversion")
     return R.finalize()
